@@ -70,6 +70,47 @@ theorem desc_sortDesc (key : Src → Nat) (l : List Src) : Desc key (sortDesc ke
   | nil => simp [sortDesc, Desc]
   | cons x xs ih => exact desc_insertDesc key x _ ih
 
+/-- stability: among the elements of one key the sort keeps the original order -/
+theorem filter_insertDesc (key : Src → Nat) (k : Nat) (x : Src) (l : List Src) :
+    (insertDesc key x l).filter (fun a => key a == k) = (x :: l).filter (fun a => key a == k) := by
+  induction l with
+  | nil => simp [insertDesc]
+  | cons y ys ih =>
+    simp only [insertDesc]
+    split
+    · rename_i hlt
+      simp only [List.filter_cons, ih]
+      by_cases hx : key x = k
+      · have hy : ¬ key y = k := by omega
+        simp [hx, hy]
+      · simp [hx]
+    · rfl
+
+theorem filter_sortDesc (key : Src → Nat) (k : Nat) (l : List Src) :
+    (sortDesc key l).filter (fun a => key a == k) = l.filter (fun a => key a == k) := by
+  induction l with
+  | nil => simp [sortDesc]
+  | cons x xs ih =>
+    simp only [sortDesc, filter_insertDesc]
+    simp only [List.filter_cons, ih]
+
+/-- the first `p` of a list is also the first `p` among the elements that share its key -/
+theorem find_filter_key {key : Src → Nat} {p : Src → Bool} {l : List Src} {s : Src}
+    (hf : l.find? p = some s) : (l.filter (fun a => key a == key s)).find? p = some s := by
+  induction l with
+  | nil => simp at hf
+  | cons y ys ih =>
+    by_cases hy : p y = true
+    · simp only [List.find?_cons, hy, Option.some.injEq] at hf
+      subst hf
+      simp [hy]
+    · have hy' : p y = false := by simpa using hy
+      simp only [List.find?_cons, hy'] at hf
+      simp only [List.filter_cons]
+      split
+      · simp only [List.find?_cons, hy']; exact ih hf
+      · exact ih hf
+
 /-! ### `get_sources` -/
 
 theorem mem_getSources {e : Env} {locs : List Src} {s : Src} : s ∈ getSources e locs ↔ s ∈ locs := by
